@@ -196,25 +196,30 @@ class C04(Check):
             i += 1
             if env.mine(i):
                 yield {"base": name, "fault": {"k": "flip", "bit": bit}}
-        for name in base_names():
-            if name.startswith("py40"):
-                continue
-            data = get_base(name)[0]
-            # intact base first
+        # round-robin over the bases (bit k of every base before bit k+1 of any): a run that is cut short by its budget has
+        # thinned every base evenly instead of dropping the last ones altogether
+        bases = [n for n in base_names() if not n.startswith("py40")]
+        datas = {n: get_base(n)[0] for n in bases}
+        for name in bases:
             i += 1
             if env.mine(i):
                 yield {"base": name, "fault": None}
-            step = 1
-            if env.quick and name.startswith("py"):
-                step = 3  # quick: every third bit of the py7zr-written bases (reference-written ones stay exhaustive)
-            for bit in range(0, len(data) * 8, step):
+        maxbits = max(len(d) for d in datas.values()) * 8
+        for bit in range(maxbits):
+            for name in bases:
+                if bit >= len(datas[name]) * 8:
+                    continue
+                if env.quick and name.startswith("py") and bit % 3:
+                    continue  # quick: every third bit of the py7zr-written bases (reference-written ones stay exhaustive)
                 i += 1
                 if env.mine(i):
                     yield {"base": name, "fault": {"k": "flip", "bit": bit}}
-            for ln in range(0, len(data)):
-                i += 1
-                if env.mine(i):
-                    yield {"base": name, "fault": {"k": "trunc", "len": ln}}
+        for ln in range(max(len(d) for d in datas.values())):
+            for name in bases:
+                if ln < len(datas[name]):
+                    i += 1
+                    if env.mine(i):
+                        yield {"base": name, "fault": {"k": "trunc", "len": ln}}
 
     def strategy(self, env):
         fault = st.one_of(
